@@ -7,7 +7,7 @@ from pv import env, finite
 
 ID = "C05"
 LEVEL = "exploration"
-N = {"quick": 5000, "thorough": 60000}
+N = {"quick": 3500, "thorough": 60000}
 RULE = ("cases = (roles of <=5 variables in each of two contracts in {absent,input,output}, extensional predicates as assumption / "
         "guarantee terms over domain {0,1} (thorough: also {0,1,2} over <=3 variables), operation compose|quotient|merge with kept "
         "variables / additional inputs, and a tape of integers that decides every nondeterministic outcome of the stub primitives: exact / "
